@@ -91,3 +91,15 @@ def determinism(functions):
                     bad.append(f'{modname}: module-level mutable object {names} (possible cross-call state)')
         return (not bad), ('; '.join(bad) if bad else f'{len(functions)} functions scanned: no hidden inputs or cross-call state')
     return check
+
+
+def no_self_call(mod, fn):
+    def check(mods):
+        f = _fn(mods, mod, fn)
+        if f is None:
+            return None, f'{mod}.{fn} not found'
+        for x in ast.walk(f):
+            if isinstance(x, ast.Call) and isinstance(x.func, ast.Name) and x.func.id == fn:
+                return False, f'{fn} calls itself at line {x.lineno}: recursion depth grows with the graph'
+        return True, f'{fn} contains no call to itself'
+    return check
